@@ -4,6 +4,7 @@ import (
 	"sync"
 
 	"github.com/privacybydesign/gabi/big"
+	"github.com/privacybydesign/gabi/gabikeys"
 )
 
 func init() {
@@ -99,4 +100,56 @@ func vpC20_O4() {
 		}
 	}
 	vpAssert("cache holds at most one prepared commitment", cred.nonrevCache == nil || len(cred.nonrevCache) <= 1)
+}
+
+func init() {
+	vpHarnesses["vpC20_O6"] = vpC20_O6
+}
+
+// C20-O6: one public key (and one credential) shared by a verifier and a second
+// goroutine that verifies another proof under the same key or produces a new
+// proof from the credential. Under every schedule (bounded preemptions): no data
+// race on the key, the credential or the proofs' shared signed accumulator, no
+// deadlock, and every verdict is the sequential one (both honest proofs verify).
+func vpC20_O6() {
+	s := vpRevocableCredential(0, "")
+	cred := s.cred
+	ctx, nonce1, nonce2, nonce3 := vpBigBits("ctx", 256), vpBigBits("nonce1", 80), vpBigBits("nonce2", 80), vpBigBits("nonce3", 80)
+	p1, err := cred.CreateDisclosureProof([]int{1}, nil, true, ctx, nonce1)
+	vpAssume(err == nil)
+	p2, err := cred.CreateDisclosureProof([]int{1}, nil, vpBool("nonrev2"), ctx, nonce2)
+	vpAssume(err == nil)
+	secondProves := vpBool("secondProves")
+	// the verifiers' key object: the one the proofs were made with, or a freshly loaded one (exported
+	// fields only, so that whatever the key caches on first use is filled during the concurrent uses)
+	vpk := s.pk
+	if vpBool("freshKeyObject") {
+		k := s.pk
+		vpk = &gabikeys.PublicKey{Counter: k.Counter, ExpiryDate: k.ExpiryDate, N: k.N, Z: k.Z, S: k.S, G: k.G, H: k.H, R: k.R,
+			EpochLength: k.EpochLength, Params: k.Params, Issuer: k.Issuer, ECDSAString: k.ECDSAString, ECDSA: k.ECDSA}
+	}
+	var wg sync.WaitGroup
+	var ok1, ok2 bool
+	var p3 *ProofD
+	var err3 error
+	wg.Add(2)
+	go func() {
+		defer wg.Done()
+		ok1 = p1.Verify(vpk, ctx, nonce1, false)
+	}()
+	go func() {
+		defer wg.Done()
+		if secondProves {
+			p3, err3 = cred.CreateDisclosureProof([]int{1}, nil, true, ctx, nonce3)
+		} else {
+			ok2 = ProofList{p2}.Verify([]*gabikeys.PublicKey{vpk}, ctx, nonce2, false, nil)
+		}
+	}()
+	wg.Wait()
+	vpAssert("a concurrent verifier reaches the sequential verdict", ok1)
+	if secondProves {
+		vpAssert("a proof produced next to a verifier is produced and verifies", err3 == nil && p3 != nil && p3.Verify(s.pk, ctx, nonce3, false))
+	} else {
+		vpAssert("a concurrent verifier reaches the sequential verdict", ok2)
+	}
 }
